@@ -4,7 +4,7 @@ from .. import core
 from ..gen import hx, rng_for
 
 ENGINES = ["memkv", "badger", "tikv", "metrics-memkv", "metrics-badger", "metrics-tikv"]
-EXTRA_PROP_MODULES = [("KB.Props.C11Conflict", "KB.C11Conflict")]
+EXTRA_PROP_MODULES = [("KB.Props.OrderC11", "KB.OrderC11"), ("KB.Props.C11Conflict", "KB.C11Conflict")]
 KEYS = [b"a", b"a/b", b"a-b", b"ab", b"b", b"b9", b"c", b"c\xff", b"d", b"\x57\xfbk", b"m", b"zz"]
 VALS = [b"1", b"22", b"333", b"v", b"old", b"new"]
 
